@@ -2,7 +2,7 @@
 """tools/seed_import.py <Cxx> <n> [check ids...]
 Verify a sub-agent's seeded change (/tmp/mut/<Cxx>/patch<n>.diff + demo<n>.py) in a scratch worktree:
   tests still pass with the patch; the demo fails with it and passes without it.
-Then keep it as /verif/seeded/<Cxx>-<n>/ and run the given quick checks against it (applied to /repo, undone afterwards)."""
+Then keep it as /verif/seeded/<Cxx>-<n>/ and run the given quick checks against it (tools/seeded_all.py: scratch worktree, /repo untouched)."""
 import json, os, shutil, subprocess, sys
 prop, n = sys.argv[1], sys.argv[2]
 checks = sys.argv[3:] or [prop]
@@ -37,14 +37,18 @@ shutil.copy(patch, dst + "/patch.diff"); shutil.copy(demo, dst + "/demo.py")
 notes = open("%s/notes%s.txt" % (src, n)).read() if os.path.exists("%s/notes%s.txt" % (src, n)) else ""
 meta["needs"] = notes.strip()
 det = {}
-r = sh("/verif/tools/mutant.sh %s %s" % (patch, " ".join(checks)))
+meta["property"] = prop
+meta["detected_by"] = checks
+json.dump(meta, open(dst + "/meta.json", "w"), indent=1)
+sid = "%s-%s%s" % (prop, os.environ.get("MUT_TAG", ""), n)
+r = sh("/verif/tools/seeded_all.py %s" % sid)          # scratch worktree + VERIF_OUT: /repo and /verif/evidence stay untouched
 print(r.stdout[-1500:])
 for line in r.stdout.splitlines():
-    for c in checks:
-        if line.startswith(c + " exit="):
-            det[c] = int(line.split("exit=")[1].split()[0])
+    if line.startswith(sid + " "):
+        res = eval(line[line.index("{"):])
+        det = {c: v[0] for c, v in res.items() if isinstance(v, tuple)}
 meta["quick_checks_exit_codes"] = det
 meta["detected_by"] = sorted(c for c, e in det.items() if e == 1)
-meta["ran"].append("tools/mutant.sh patch.diff " + " ".join(checks))
+meta["ran"].append("tools/seeded_all.py " + sid)
 json.dump(meta, open(dst + "/meta.json", "w"), indent=1)
 print("DETECTED BY:", meta["detected_by"], "exit codes", det)
